@@ -18,6 +18,15 @@ CHECKS = {
             'The draw space is finite, so this is complete for the property as stated.',
             'Sockets are stubbed (no datagram is sent); time.time() is a fixed virtual instant; the send loop itself '
             '(10 ms raster) is outside the property.', '3/C15'),
+    'C18': ('I', 'bounded-exhaustive enumeration of the lexical / Python value spaces against exact-arithmetic oracles',
+            'Every integer millisecond in dense windows (0..2e6, 1e6 around 1.7e12, 1e5 below 2^53/1000; thorough: 0..1e7 plus '
+            'ten more windows) is converted xml->py->xml and py->xml->py (including both float neighbours); decimals: the full '
+            'product sign x coefficient set (0..999/9999 and all 10^k, 10^k+-1, 18 nines) x exponent [-18,18]; durations: every '
+            'ms to 100 s, every second of a day, every us near 0 and 1 s, boundaries; date-times: a 3000-string grammar product; '
+            'booleans, integers, all 146 enum literals; fixed lists of illegal lexical forms must raise. Exhaustive inside the '
+            'windows, nothing outside them.',
+            'Values outside the enumerated windows are not covered (the property allows sampling there; sampling is outside this '
+            'technique). Illegal-form lists are finite. Exactness oracles use Python int/Decimal arithmetic.', '3/C18'),
 }
 
 NOT_BUILT_REASON = 'check not built yet (work in progress; designed in DESIGN.md section 3)'
